@@ -653,6 +653,11 @@ class Merger:
                 " suitable node.", insert_at)
         else:
             # Merge a dict into a dict
+            if not isinstance(lhs, CommentedMap):
+                raise MergeException(
+                    "Impossible to add Hash data to non-Hash destination.",
+                    insert_at)
+
             self.logger.debug(
                 "Merger::_insert_dict:  Merging a dict into a dict.")
 
